@@ -57,6 +57,12 @@ func init() {
 		assumptions: commonAssumptions,
 		technique:   "abstract interpretation into residual programs + guard-set (polarity) effect rules on the residual ASTs; predicate tabulation",
 	}
+	checks["C15"] = &checkDef{
+		run: runR_C15,
+		explanation: "Engine R on curry/uncurry/flip/apply/tuple for every naming of the parameters (named, blank, unnamed) and 0..2 results at arities up to the bound: (R14) the innermost closure references the original function exactly once, calls it with its own parameter names in order (and, for uncurry, the returned function with its parameters), returns the results unchanged; the closure binders are exactly the parameters, each once, in the transformed order (curry: first | rest; flip: first two swapped; apply: last pre-bound; uncurry: outer ++ inner); tuple returns its arguments in order; hygiene: a template-literal identifier referenced under user-named binders is a capture hazard; (R4) each residual is type-checked with pairwise distinct opaque parameter types — since the generators never inspect those types, this decides positional correctness for all types; (R1) blank/unnamed parameters must still give parsable output. Not decided: runtime behaviour of f, variadic signatures.",
+		assumptions: commonAssumptions,
+		technique:   "abstract interpretation into residual programs + structural plumbing rules + go/types check of residuals under distinct opaque types (parametricity)",
+	}
 	checks["C07"] = &checkDef{
 		run: func(c *Ctx) {
 			runG4(c.Repo, c.Rep)
